@@ -1,10 +1,14 @@
 """C07 — Rational arithmetic exact and canonical; order and equality follow the value (engine `rational`)."""
+import os
+import sys
+
 ID = "C07"
 ENGINE = "rational"
 CRATE = "e_rational"
 DRIVER = "drv_rational"
 DRIVER_MODULE = "Driver.Rational"
 PROPS = "RlibModel.Props.C07"
+PROPS_SRC = "RlibModel.Props.C07Src"     # second tie: `src_*` theorems about the definitions regenerated from the source text
 PROFILES = ["release"]
 SHRINK_SEP = None
 RULE = ("cases: Rational<i32>, <i64>, <i128>; every pair of fractions a/b, c/d with numerators in [-k,k] and denominators in "
@@ -18,7 +22,7 @@ RULE = ("cases: Rational<i32>, <i64>, <i128>; every pair of fractions a/b, c/d w
         "the guard and at MIN / zero denominators where only the machine model is compared (any panic = `panic`). "
         "non-trivial = distinct case inside the property's domain (spec answer not `any`) with some operand of magnitude > 1")
 ASSUMPTIONS = [
-    "the Lean model of rlib_rational is hand-written; it is tied to the code by running both on the same cases",
+    "the Lean model of rlib_rational is hand-written; it is tied to the code (i) by running both on the same cases and (ii) by theorems src_*_eq_model (see the last entry)",
     "harness built with overflow-checks=true so a wrapped intermediate shows up as panic:overflow instead of a silent wrong value",
     "values of Hash (SipHash) are std's: what is shown is that equal values have equal field pairs, which is all a derived Hash consumes; "
     "the harness additionally observes DefaultHasher equality and HashSet membership",
@@ -45,3 +49,63 @@ def nontrivial(case, rec):
         return any(abs(int(t)) > 1 for t in toks[1:])
     except ValueError:
         return True
+
+
+# ---- second tie: the model regenerated from the source text on every run (tools/rs2lean_generic_struct.py) ---------
+ASSUMPTIONS.append(
+    "second tie: new/new_int/+/-/*/÷/neg/cmp/partial_cmp/floor/ceil of the hand-written model (unbounded instantiation `t = none`) and all four "
+    "operator forms (by reference, by value, assigning by reference, assigning by value) are proved equal (theorems src_*_eq_model, "
+    "src_forms_agree) to the definitions that tools/rs2lean_generic_struct.py regenerates from the text of rlib/rational/src/lib.rs on every "
+    "run (Generated/RationalSrc.lean), whose calls of `gcd` are calls of the definition regenerated from rlib/gcd/src/lib.rs "
+    "(Generated/GcdSrc.lean, itself proved equal to the gcd model) — over unbounded integers: machine overflow is covered by the "
+    "differential tie and the nowrap_* theorems only; trusted there: the translator (tools/rs2lean.py + tools/rs2lean_generic_struct.py) and its "
+    "reading of `T: Integer` as Int, of the std operators / Clone / Ord::cmp behind `T` as the primitive operations, of `#[derive(Clone)]`; "
+    "not translated: Display/Debug/Show/ZeroOne impls, the derived PartialEq/Eq/Hash")
+MANIFEST["text"] += (" The unbounded model is additionally tied to the source text by machine-checked equality with definitions regenerated "
+                     "from rlib/rational/src/lib.rs (and rlib/gcd/src/lib.rs for the gcd inside norm) by a translator on every run.")
+MANIFEST["technique"] += (" + source-to-Lean translation of rlib/rational/src/lib.rs (calling the regenerated translation of rlib/gcd/src/lib.rs) "
+                          "regenerated and proved equal to the model on every run")
+
+VERIF = os.path.dirname(os.path.dirname(os.path.abspath(__file__)))
+SRC_REL = "rlib/rational/src/lib.rs"
+GENERATED = os.path.join(VERIF, "lean", "RlibModel", "Generated", "RationalSrc.lean")
+# Lean names (rule G4 of the translator): `Add<&Self>::add` is `add_ref`, the macro-generated by-value form is `add`, …
+SRC_FNS = ["new", "new_int", "floor", "ceil", "add_ref", "sub_ref", "mul_ref", "div_ref", "neg", "cmp", "partial_cmp",
+           "add", "sub", "mul", "div", "add_assign_ref", "sub_assign_ref", "mul_assign_ref", "div_assign_ref",
+           "add_assign", "sub_assign", "mul_assign", "div_assign"]
+GCD_REL = "rlib/gcd/src/lib.rs"
+GCD_FNS = ["gcd", "lcm", "egcd", "crt"]           # exactly what checks/C11.py generates: the file must be byte-identical
+EXTERNS = {"rlib_gcd": {"rel": GCD_REL, "ns": "Rlib.GcdSrc", "import": "RlibModel.Generated.GcdSrc"}}
+
+
+def extract(repo):
+    """Translate <repo>/rlib/rational/src/lib.rs into Generated/RationalSrc.lean and (because `norm` calls `gcd`) <repo>/rlib/gcd/src/lib.rs
+    into Generated/GcdSrc.lean, exactly as checks/C11.py does — both written only when their text changes.  A construct outside the
+    translators' subset is a broken correspondence; the generated file then has no definitions, so the src_* theorems stop compiling as
+    well (never a stale file left in place)."""
+    tools = os.path.join(VERIF, "tools")
+    if tools not in sys.path:
+        sys.path.insert(0, tools)
+    import rs2lean
+    import rs2lean_generic_struct as gs
+    ginfo, gproblems = rs2lean.run(os.path.join(repo, GCD_REL), os.path.join(VERIF, "lean", "RlibModel", "Generated", "GcdSrc.lean"),
+                                   "Rlib.GcdSrc", GCD_REL, "C11", GCD_FNS)
+    info, problems = gs.run(os.path.join(repo, SRC_REL), GENERATED, "Rlib.RationalSrc", SRC_REL, ID, SRC_FNS, EXTERNS, repo)
+    params = {"translated_from": [SRC_REL, GCD_REL], "translated_functions": info.get("functions", []),
+              "translated_loops": info.get("loops", []), "not_translated": info.get("not_translated", []),
+              "extern_calls": info.get("extern_calls", []), "gcd_translated_functions": ginfo.get("functions", []),
+              "generated_file": "lean/RlibModel/Generated/RationalSrc.lean", "generated_file_rewritten": info.get("rewritten", False),
+              "gcd_generated_file_rewritten": ginfo.get("rewritten", False)}
+    missing = [f for f in SRC_FNS if f not in params["translated_functions"]]
+    if missing and not problems:
+        problems.append(f"rs2lean_generic_struct: functions {missing} were not translated from {SRC_REL}")
+    return params, problems + gproblems
+
+
+def extra(ctx):
+    """Plain-words verdict on the second tie when the src_* proofs did not build (the generic check only names the file)."""
+    import rs2lean
+    ok = all(f in ctx["params"].get("translated_functions", []) for f in SRC_FNS) and "gcd" in ctx["params"].get("gcd_translated_functions", [])
+    return (rs2lean.tie_findings(["RlibModel/Generated/GcdSrc.lean"], "RlibModel/Lemmas/GcdSrc.lean", ok, GCD_REL) +
+            rs2lean.tie_findings(["RlibModel/Generated/RationalSrc.lean", "RlibModel/Generated/GcdSrc.lean"],
+                                 "RlibModel/Lemmas/RationalSrc.lean", ok, SRC_REL))
